@@ -642,14 +642,15 @@ def _remove_quotes(value: str) -> str:
 
     Handles '...', "...", $'...', $"..." and backslash escapes, so that -"exec", \\-exec
     and $'-exec' all read -exec. A word with an expansion that has a quoting context of
-    its own ($(...), `...`, ${...}), or with an unclosed quote, only loses an outer pair.
+    its own (an unquoted or double-quoted $(...), `...`, ${...}, or <(...)), or with an
+    unclosed quote, only loses an outer pair.
     """
-    if "$(" in value or "`" in value or "${" in value or "<(" in value or ">(" in value:
-        return _strip_quotes(value)
     out: list[str] = []
     i, n = 0, len(value)
     while i < n:
         ch = value[i]
+        if ch == "`" or value[i : i + 2] in ("$(", "${", "<(", ">("):
+            return _strip_quotes(value)
         if ch == "\\":
             if i + 1 >= n:
                 out.append(ch)
@@ -667,6 +668,8 @@ def _remove_quotes(value: str) -> str:
         elif ch == '"' or (ch == "$" and value[i + 1 : i + 2] == '"'):
             i += 1 if ch == '"' else 2
             while i < n and value[i] != '"':
+                if value[i] == "`" or value[i : i + 2] in ("$(", "${"):
+                    return _strip_quotes(value)
                 if value[i] == "\\" and i + 1 < n and value[i + 1] in '$`"\\\n':
                     if value[i + 1] != "\n":
                         out.append(value[i + 1])
